@@ -23,6 +23,7 @@ type c02Stats struct {
 	skipped     int
 	handover    bool
 	mapFailed   bool
+	retried     bool
 }
 
 func c02Run(c pmCase) (*vlib.Failure, c02Stats) {
@@ -136,8 +137,20 @@ func c02Run(c pmCase) (*vlib.Failure, c02Stats) {
 			return nil, rs // the failure did not fire (fewer map calls), or another error came first
 		}
 		rs.mapFailed = true
+		retried := false
+		if c.RetryInit {
+			// boot tries the hand-over again from the top: pmm.Init, with a fresh main allocator
+			bitmapAllocator = BitmapAllocator{}
+			env.reserved, env.mapped, env.reserveSz = nil, nil, nil
+			pc := vlib.CatchFault(func() { initErr = Init(uintptr(c.KStart), uintptr(c.KEnd)) })
+			if pc.Panicked {
+				return nil, rs // decided by C03
+			}
+			retried = initErr == nil
+			rs.retried = true
+		}
 		seq := append(append([]uint64(nil), got...), env.early...)
-		for i := 0; i < 3; i++ {
+		for i := 0; i < 3 && !retried; i++ {
 			var f mm.Frame
 			var err *kernel.Error
 			if pc := vlib.CatchFault(func() { f, err = earlyAllocFrame() }); pc.Panicked {
@@ -214,6 +227,7 @@ func TestVerifC02(t *testing.T) {
 		c.EntrySize = pmGenEntrySize(t)
 		if rapid.IntRange(0, 5).Draw(t, "mapfail") == 0 {
 			c.MapFail = rapid.IntRange(1, 3).Draw(t, "mapfailat")
+			c.RetryInit = rapid.Bool().Draw(t, "retryinit")
 			c.Tables = rapid.IntRange(0, 3).Draw(t, "mapfailtables")
 		}
 		ks, ke, where, ok := pmGenKernel(t, c.Regions)
@@ -244,6 +258,9 @@ func TestVerifC02(t *testing.T) {
 		}
 		if rs.mapFailed {
 			labels = append(labels, "hand-over-failed-half-way,-boot-went-on")
+		}
+		if rs.retried {
+			labels = append(labels, "hand-over-failed-half-way,-then-tried-again-from-the-top")
 		}
 		if rs.handover {
 			labels = append(labels, "hand-over-checked")
